@@ -6,9 +6,11 @@
           clean chain text and the descriptor dict {i: Di};
     (iii) [read_chain_frag]: the model of read_fragment_cgsmiles then reads the clean text (reader component's
           reader_sim_lin_nobrace) as the chain numbered 0..n and applies its post-processing to it.
-    The writer takes every node's name from `fragname`: this is the theorem about what the code does; the open
-    class coarse_node_renamed (names kept in `atomname` are lost) is outside.  Trees with a bond symbol on a
-    branch edge are outside too: the strip grammar (Frag/FragText.wf_items) has no symbol before "(". *)
+    The fragment graph is the one read_fragment_cgsmiles builds: every node carries `fragname` = the name F of the
+    FRAGMENT, its own name in `atomname`, and its descriptor list in `bonding`; write_cgsmiles_fragments writes it
+    with name_attr='atomname' (fix 6d8cc68), so the nodes' own names are written, whatever F is.
+    Trees with a bond symbol on a branch edge are outside: the strip grammar (Frag/FragText.wf_items) has no symbol
+    before "(". *)
 From Coq Require Import String.
 From Coq Require Import List Ascii ZArith Bool Lia.
 From CGV Require Import Base.PyBase Base.PyVal Base.PyGen Base.NxGraph Gen.WriterGen Dialect.DialectImpl.
@@ -18,14 +20,19 @@ Open Scope Z_scope.
 
 (** ------------------------------------------------------------------ (i) the writer *)
 Definition nodex := (pystr * list dspec)%type.                      (* name, descriptors *)
-Definition fattrs (x : nodex) : attrs := [(S "fragname", VStr (fst x)); (S "bonding", VList (map VStr (map d_stored (snd x))))].
 Definition fbt (D : list dspec) : pystr := fb_expected (map (fun x => (d_kl x, snd x)) D).
 Definition ntxt (x : nodex) : pystr := S "[#" ++ fst x ++ S "]" ++ fbt (snd x).
 Definition okx (x : nodex) : Prop := forallb d_ok (snd x) = true.
-Definition mk_restx (l : list (Z * Z * nodex)) : list (attrs * Z * attrs) :=
-  map (fun y => (order_attrs (fst (fst y)), snd (fst y), fattrs (snd y))) l.
 Fixpoint ctext (sprev : pystr) (x : nodex) (l : list (Z * Z * nodex)) {struct l} : pystr :=
   sprev ++ ntxt x ++ match l with [] => [] | (o, _, x') :: r => ctext (zsym o) x' r end.
+
+Section WriterSide.
+(** the name of the fragment: what read_fragment_cgsmiles stores as `fragname` on EVERY node *)
+Variable F : pystr.
+Definition fattrs (x : nodex) : attrs :=
+  [(S "fragname", VStr F); (S "atomname", VStr (fst x)); (S "bonding", VList (map VStr (map d_stored (snd x))))].
+Definition mk_restx (l : list (Z * Z * nodex)) : list (attrs * Z * attrs) :=
+  map (fun y => (order_attrs (fst (fst y)), snd (fst y), fattrs (snd y))) l.
 
 Lemma strs_of_map ds : strs_of (map VStr ds) = Ok ds.
 Proof. induction ds as [|d r IH]; [reflexivity|]. cbn [map strs_of as_str bind]. now rewrite IH. Qed.
@@ -37,7 +44,9 @@ Proof.
   apply format_bonding_spec. apply Forall_forall. intros klo Hin. apply in_map_iff in Hin as [x [<- Hx]].
   rewrite forallb_forall in HL. specialize (HL x Hx). destruct (order_cases _ HL) as [E|[E|[E|E]]]; cbn [snd]; lia.
 Qed.
-Lemma aget_fragname x : aget (S "fragname") (fattrs x) = Some (VStr (fst x)).
+Lemma aget_fragname x : aget (S "fragname") (fattrs x) = Some (VStr F).
+Proof. reflexivity. Qed.
+Lemma aget_atomname x : aget (S "atomname") (fattrs x) = Some (VStr (fst x)).
 Proof. reflexivity. Qed.
 Lemma aget_bonding x : aget (S "bonding") (fattrs x) = Some (VList (map VStr (map d_stored (snd x)))).
 Proof. reflexivity. Qed.
@@ -45,11 +54,11 @@ Lemma aget_aromatic x : aget (S "aromatic") (fattrs x) = None.
 Proof. reflexivity. Qed.
 Lemma node_text_frag dh G pre prev k x rest : okx x ->
   G = pre ++ path_from prev k (fattrs x) rest -> ~ In k (map nk pre) ->
-  node_text false dh G k = Ok (ntxt x).
+  node_text_by (S "atomname") false dh G k = Ok (ntxt x).
 Proof.
   intros Hx -> Hk. destruct (path_from_head prev k (fattrs x) rest) as [adj [post ->]].
-  unfold node_text, format_node, bonding_suffix, node_attrs. rewrite gfind_app by (assumption || reflexivity).
-  cbn [bind na]. rewrite aget_fragname, aget_bonding. cbn [of_option bind py_format]. unfold ntxt.
+  unfold node_text_by, format_node_by, bonding_suffix, node_attrs. rewrite gfind_app by (assumption || reflexivity).
+  cbn [bind na]. rewrite aget_fragname, aget_atomname, aget_bonding. cbn [of_option bind py_format]. unfold ntxt.
   assert (Hb : (if truthy (VList (map VStr (map d_stored (snd x))))
                 then l <- as_list (VList (map VStr (map d_stored (snd x)))) ;; ds <- strs_of l ;; format_bonding ds else Ok [])
                = Ok (fbt (snd x))).
@@ -72,7 +81,7 @@ Qed.
 
 Lemma chain_text_frag dh G : forall l pre prev k x sprev prevopt env,
   G = pre ++ path_from prev k (fattrs x) (mk_restx l) ->
-  e_fmt env = node_text false dh G -> e_sym env = edge_text G ->
+  e_fmt env = node_text_by (S "atomname") false dh G -> e_sym env = edge_text G ->
   NoDup (map nk pre ++ k :: rest_keys (mk_restx l)) ->
   (forall p, In p prev -> In (fst p) (map nk pre)) ->
   okx x -> Forall (fun y => 0 <= fst (fst y) <= 4 /\ okx (snd y)) l ->
@@ -116,12 +125,14 @@ Qed.
 Theorem write_chain_frag : forall k0 x0 (l : list (Z * Z * nodex)),
   NoDup (k0 :: rest_keys (mk_restx l)) -> (forall k, In k (rest_keys (mk_restx l)) -> k0 <= k) ->
   okx x0 -> Forall (fun y => 0 <= fst (fst y) <= 4 /\ okx (snd y)) l ->
-  write_graph false (fun _ => true) (path_graph k0 (fattrs x0) (mk_restx l)) [] = Ok (ctext [] x0 l).
+  write_graph_by (S "atomname") false (fun _ => true) (path_graph k0 (fattrs x0) (mk_restx l)) [] = Ok (ctext [] x0 l).
 Proof.
-  intros k0 x0 l ND Hmin Hx Hord. unfold write_graph. rewrite write_path_abstract by assumption.
+  intros k0 x0 l ND Hmin Hx Hord. unfold write_graph_by. rewrite write_path_abstract_by by assumption.
   rewrite (chain_text_frag (fun _ => true) (path_graph k0 (fattrs x0) (mk_restx l)) l [] [] k0 x0 [] None); try reflexivity; try assumption.
   intros p [].
 Qed.
+
+End WriterSide.
 
 (** ------------------------------------------------------------------ (ii) the strip model on the chain text *)
 From CGV Require Import Frag.NDict Frag.StripImpl Frag.FragText Frag.FragProofs.
@@ -287,11 +298,11 @@ Qed.
     dict {i : Di} the chain carried *)
 Theorem coarse_chain_roundtrip : forall fo A a0 fragname k0 x0 (l : list (Z * Z * nodex)),
   fragment_node_parser fo [] = Ok a0 ->
-  NoDup (k0 :: rest_keys (mk_restx l)) -> (forall k, In k (rest_keys (mk_restx l)) -> k0 <= k) ->
+  NoDup (k0 :: rest_keys (mk_restx fragname l)) -> (forall k, In k (rest_keys (mk_restx fragname l)) -> k0 <= k) ->
   okn x0 -> Forall (fun y => 0 <= fst (fst y) <= 4 /\ okn (snd y)) l ->
   Forall (fun n => name_ok fo n = true) (path_names (fst x0) (plainl l)) ->
   Forall (fun n => parse_graph_base_node fo n = Ok (A n)) (path_names (fst x0) (plainl l)) ->
-  exists txt, write_graph false (fun _ => true) (path_graph k0 (fattrs x0) (mk_restx l)) [] = Ok txt
+  exists txt, write_graph_by (S "atomname") false (fun _ => true) (path_graph k0 (fattrs fragname x0) (mk_restx fragname l)) [] = Ok txt
     /\ read_coarse_fragment fo fragname txt
        = (let sp := cspec a0 sinit x0 l in
           let g := nx_build A (fst x0) (plainl l) in
@@ -316,7 +327,8 @@ Qed.
 Definition ex_x0 : nodex := (S "A", [("$"%char, S "a", 1%nat); (">"%char, [], 2%nat)]).
 Definition ex_l : list (Z * Z * nodex) := [(2, 5, (S "B", [("!"%char, S "x", 0%nat)])); (0, 7, (S "PEO", [])); (1, 9, (S "A", [("<"%char, [], 3%nat)]))].
 Example coarse_chain_example :
-  write_graph false (fun _ => true) (path_graph 3 (fattrs ex_x0) (mk_restx ex_l)) [] = Ok (S "[#A][$a]=[>]=[#B].[!x].[#PEO][#A]#[<]")
+  write_graph_by (S "atomname") false (fun _ => true) (path_graph 3 (fattrs (S "X") ex_x0) (mk_restx (S "X") ex_l)) []
+  = Ok (S "[#A][$a]=[>]=[#B].[!x].[#PEO][#A]#[<]")
   /\ match read_coarse_fragment (fun _ => None) (S "X") (S "[#A][$a]=[>]=[#B].[!x].[#PEO][#A]#[<]") with
      | Ok g => map (fun n => (nk n, aget (S "atomname") (na n), aget (S "bonding") (na n), aget (S "fragname") (na n))) g
                = [(0, Some (VStr (S "A")), Some (VList [VStr (S "$a1"); VStr (S ">2")]), Some (VStr (S "X")));
